@@ -1,6 +1,6 @@
 //! (b) ROC curve / AUC and log-loss on probability vectors.
 
-use crate::bound::{agrees, Ctx, B, U32};
+use crate::bound::{agrees, near, Ctx, B, U32};
 use linfa::dataset::{DatasetBase, Pr};
 use linfa::metrics::BinaryClassification;
 use ndarray::{Array1, Array2};
@@ -216,7 +216,7 @@ pub fn check(c: &RocCase, obs: &mut Obs) {
             });
         }
         if let (Some(ll), Some(Ok(v))) = (ll, obs.call("log_loss(permuted)", || pp.log_loss(&yp[..]))) {
-            obs.ensure((v as f64 - ll as f64).abs() <= 2.0 * want_ll.tol(ctx), "perm:logloss", || {
+            obs.ensure(near(v as f64, ll as f64, 2.0 * want_ll.tol(ctx)), "perm:logloss", || {
                 format!("log_loss changed under a common permutation: {v} vs {ll}")
             });
         }
